@@ -18,7 +18,7 @@ RULE = ('(also: one selector object applied to every length in turn, ascending t
 ASSUMPTIONS = ['Slice.last()/Sample.last() are not in the statement (pinned by the suite) and are exercised only through C11',
                'a step <= 0 in an option string is neither required to be accepted nor rejected']
 
-TOKENS_Q = ['', '1', '-2', '0', 'None', ' 3 ', 'x', '1.5', '+4', 'None7', '6None4', 'NoneNone', 'N', 'on', 'one', 'e', 'none', 'NONE', ' ']   # 'N' .. 'e': the word None run together with other text
+TOKENS_Q = ['', '1', '-2', '0', 'None', ' 3 ', 'x', '1.5', '+4', 'None7', '6None4', 'NoneNone', 'N', 'on', 'one', 'e', 'none', 'NONE', ' ', '10', '1 0', 'No ne']      # the last two: white space inside a part (after the text it collapses to)   # 'N' .. 'e': the word None run together with other text
 TOKENS_T = TOKENS_Q + ['12', 'nOnE', ' None ']
 
 
